@@ -103,7 +103,7 @@ fn sweep_starts(tier: Tier) -> Vec<Start> {
     let mut out = vec![];
     for k in 1..=n {
         for f in forests(&al, k) {
-            out.push(Start { name: format!("sweep:{}", forest_show(&[A::doc(f.clone())])), forest: vec![A::doc(f), A::text("u"), A::el("", "e")], adjacent_text: false, consolidation: true });
+            out.push(Start { name: format!("sweep:{}", forest_show(&[A::doc(f.clone())])), forest: vec![A::doc(f), A::text("u"), A::el("", "e")], adjacent_text: false, consolidation: true, parse: vec![] });
         }
     }
     out
